@@ -2,19 +2,48 @@
    Only statements, each closed by [exact], with its assumptions printed.
    M = Model/C07.v (the folds of codebasin/report.py over exact rationals, NaN = None),
    S = Spec/C07.v (the definitions on explicit line sets).  [oeq] = both NaN or equal
-   rationals; [wf] = counts are non-negative; [selected] = what the optional
-   `platforms` argument denotes (absent/empty = the platforms of the table). *)
+   rationals; [wf] = counts are non-negative; [selected t arg ps] = the optional
+   `platforms` argument denotes ps (absent/empty = any duplicate-free listing of
+   the platforms named in the table); [is_platform_set t ps] = ps lists exactly the
+   platforms named in some key of the table, once each, in any order. *)
 From Coq Require Import ZArith QArith String Bool Permutation List.
-From CBI Require Import Lib.Data Model.C07 Spec.C07 Proofs.C07 Proofs.C07s.
+From CBI Require Import Lib.Data Model.C07 Spec.C07 Proofs.C07 Proofs.C07s Proofs.C07d Proofs.C07i.
 Import ListNotations.
 Local Open Scope string_scope.
+
+(* coverage = 100 |U_{p in P} L_p| / |all lines| *)
+Theorem C07_coverage_def : forall t arg ps, wf t -> selected t arg ps -> oeq (coverage t arg) (S_coverage t ps).
+Proof. exact coverage_def. Qed.
+Print Assumptions C07_coverage_def.
+
+(* average coverage = mean over P of 100 |L_p| / |all lines| *)
+Theorem C07_avg_def : forall t arg ps, wf t -> selected t arg ps -> oeq (average_coverage t arg) (S_average_coverage t ps).
+Proof. exact average_def. Qed.
+Print Assumptions C07_avg_def.
+
+(* distance = Jaccard distance |L_p symdiff L_q| / |L_p union L_q| *)
+Theorem C07_distance_jaccard : forall t p q, wf t -> oeq (distance t p q) (S_distance t p q).
+Proof. exact distance_S. Qed.
+Print Assumptions C07_distance_jaccard.
+
+(* divergence = mean distance over the unordered pairs of the table's platforms,
+   whatever order the platform set is enumerated in *)
+Theorem C07_divergence_def : forall t ps, wf t -> is_platform_set t ps -> oeq (divergence t) (S_divergence t ps).
+Proof. exact divergence_def. Qed.
+Print Assumptions C07_divergence_def.
 
 (* distances are symmetric (as values, including NaN) *)
 Theorem C07_symmetric : forall t p q, distance t p q = distance t q p.
 Proof. exact distance_sym. Qed.
 Print Assumptions C07_symmetric.
 
-(* distance = Jaccard distance of the two line sets *)
-Theorem C07_distance_jaccard : forall t p q, wf t -> oeq (distance t p q) (S_distance t p q).
-Proof. exact distance_S. Qed.
-Print Assumptions C07_distance_jaccard.
+(* the `platforms` argument: absent = empty = all platforms listed explicitly; a
+   non-empty argument counts as a set (coverage) / in any order (average) *)
+Theorem C07_platforms_arg : forall t,
+  coverage t (Some []) = coverage t None /\ average_coverage t (Some []) = average_coverage t None /\
+  (forall ps, is_platform_set t ps -> coverage t (Some ps) = coverage t None /\
+                                      oeq (average_coverage t (Some ps)) (average_coverage t None)) /\
+  (forall l l', l <> [] -> l' <> [] -> (forall x, In x l <-> In x l') -> coverage t (Some l) = coverage t (Some l')) /\
+  (forall l l', Permutation l l' -> oeq (average_coverage t (Some l)) (average_coverage t (Some l'))).
+Proof. exact platforms_arg. Qed.
+Print Assumptions C07_platforms_arg.
